@@ -3,7 +3,7 @@ verus! {
 
 broadcast use f64_add_req, f64_sub_req, f64_mul_req, f64_div_req, f64_rem_req, f64_add_val, f64_sub_val, f64_mul_val, f64_div_val,
     f64_eq_val, f64_ne_val, f64_lt_val, f64_gt_val, f64_partial_cmp_val, f64_zero_literal, f_neg_value, f_consts,
-    bigrational_ext, rat_numer_denom, rat_of_int_numer_denom, lemma_int_pow_nonzero;
+    bigrational_ext, rat_numer_denom, rat_of_int_numer_denom, lemma_int_pow_nonzero, lemma_int_pow_zero_base;
 
 pub enum NumV { Int(int), Rat(real), Flt(f64), Cpx(Complex64) }
 
@@ -80,6 +80,15 @@ pub open spec fn tower_agrees(op: BinOp, a: NumV, b: NumV, r: NumV) -> bool {
 // operands for which the exact levels divide by zero (the callers must exclude them; num-bigint / num-rational panic)
 pub open spec fn exact_zero_divisor(a: NumV, b: NumV) -> bool {
     level(a) <= 1 && level(b) <= 1 && to_rat(b) == 0real
+}
+
+// `b.is_nonzero()`: exact zero at the exact levels, +-0.0 at the float level, 0+0i at the complex level
+pub open spec fn num_nonzero(v: NumV) -> bool {
+    match v {
+        NumV::Int(i) => i != 0, NumV::Rat(x) => x != 0real,
+        NumV::Flt(f) => !fv_eq(fv(f), FV::Fin(0real)),
+        NumV::Cpx(z) => !(fv_eq(fv(z.re), FV::Fin(0real)) && fv_eq(fv(z.im), FV::Fin(0real))),
+    }
 }
 
 // integer rounding family on the tower
